@@ -69,10 +69,12 @@ ares_status_t ares_buf_load_file(const char *filename, ares_buf_t *buf)
   VP_ASSERT(filename == vp_alias_path, "the file named by $HOSTALIASES is loaded");
 #endif
   if (buf == NULL) return ARES_EFORMERR;
-  if (vp_alias_file_mode == 1) return ARES_ENOTFOUND;
-  if (vp_alias_file_mode == 2) return ARES_EFILE;
+  /* the allocation counter is advanced on every path (a counter that differs between merged paths would make
+   * every later allocation of the call "maybe failing") */
   if (!tick()) return ARES_ENOMEM; /* buffer storage */
   vp_alloc_live--;                 /* owned by buf, released with it */
+  if (vp_alias_file_mode == 1) return ARES_ENOTFOUND;
+  if (vp_alias_file_mode == 2) return ARES_EFILE;
   buf->loaded = 1;
   return ARES_SUCCESS;
 }
@@ -102,10 +104,10 @@ ares_status_t ares_buf_split(ares_buf_t *buf, const unsigned char *delims, size_
   lines_live = 1;
   return ARES_SUCCESS;
 }
-size_t ares_array_len(const ares_array_t *arr) { return arr ? arr->n : 0; }
+size_t ares_array_len(const ares_array_t *arr) { return arr ? NLINES : 0; } /* not arr->n: stays a constant when arr may be NULL */
 void  *ares_array_at(ares_array_t *arr, size_t idx)
 {
-  if (arr == NULL || idx >= arr->n) return NULL;
+  if (arr == NULL || idx >= NLINES) return NULL;
   return &line_ptr[idx];
 }
 void ares_array_destroy(ares_array_t *arr)
